@@ -12,6 +12,7 @@ Callee classes (DESIGN §2):
   PRIM    InputRef primitives.
 """
 import mirq
+import re
 import os
 from mirq import callee_path as mirq_callee_path
 from interp import (contradicts, add_fact, TOP, UNIT, MOVED, AnalysisError, Inp, has_token, strip_token, taint_of, term_of,
@@ -1154,6 +1155,7 @@ class Models:
         # that guards speak about what it computes, not about its name.  The binding-power functions themselves stay opaque terms
         # (their arithmetic is AFFINE's business and the contracts name them).
         if f.get("krate") == "chumsky" and f["name"] not in ("left_power", "right_power") and fr.depth < 4 \
+                and re.match(r"^(u8|u16|u32|u64|u128|usize|i8|i16|i32|i64|i128|isize|bool)$", dest_ty or "") \
                 and not any(isinstance(v, tuple) and v and v[0] in ("inp", "errors", "slotref", "secref") for v in list(vals) + list(dv)):
             cb = self.local_body_of(f)
             if cb is not None and not cb.get("public") and not cb.get("impl_trait") and not cb.get("in_trait") and cb is not fr.body \
